@@ -258,7 +258,12 @@ func c11One(probe, root string, c c11Case) c11Obs {
 		o.Setup = "unknown runner"
 		return o
 	}
-	cancelThenLoss := c.Rep >= 300 && c.Frozen && c.Destroy // see RunCancel_Gen!CancelThenLoss
+	if c.Rep >= 600 && sess != nil {
+		// see RunCancel_Gen!BothPending: the API goroutine is held in front of waitForDone's select until the
+		// program has ended AND the context is cancelled, so the select finds both cases ready
+		installGates(sess, "wait-both")
+	}
+	cancelThenLoss := c.Rep >= 300 && c.Rep < 600 && c.Frozen && c.Destroy // see RunCancel_Gen!CancelThenLoss
 	if cancelThenLoss {
 		// let the program start, stop the init, cancel, and only then destroy
 		c.Frozen = false
